@@ -21,23 +21,26 @@ execs=$(cat "$work"/fuzz-*.log 2>/dev/null | grep -o 'stat::number_of_executed_u
 done_jobs=$(cat "$work"/fuzz-*.log 2>/dev/null | grep -c '^Done [0-9]* runs')
 cov=$(cat "$work"/fuzz-*.log 2>/dev/null | grep -o 'cov: [0-9]*' | awk '{if ($2>m) m=$2} END {print m+0}')
 corpus=$(ls "$work/corpus" | wc -l)
-crashes=$(ls "$art"* 2>/dev/null | wc -l)
+# only crash-* artifacts are failures of the oracle; timeout-/oom-/slow-unit- artifacts are resource limits (never a violation)
+limited=$(ls "$art"timeout-* "$art"oom-* "$art"slow-unit-* 2>/dev/null | wc -l)
+rm -f "$art"timeout-* "$art"oom-* "$art"slow-unit-* 2>/dev/null
+crashes=$(ls "$art"crash-* 2>/dev/null | wc -l)
 t1=$(date +%s)
-python3 - "$root/evidence/$id.json" "$target" "$runs" "$jobs" "$done_jobs" "$cov" "$corpus" "$crashes" "$((t1-t0))" "$seed" <<'PY'
+python3 - "$root/evidence/$id.json" "$target" "$runs" "$jobs" "$done_jobs" "$cov" "$corpus" "$crashes" "$((t1-t0))" "$seed" "$limited" <<'PY'
 import json, sys
-p, target, runs, jobs, done, cov, corpus, crashes, secs, seed = sys.argv[1:]
+p, target, runs, jobs, done, cov, corpus, crashes, secs, seed, limited = sys.argv[1:]
 try:
     e = json.load(open(p))
 except Exception:
     sys.exit(0)
 f = e['coverage'].setdefault('fuzz', [])
-f.append({"engine": "libFuzzer (cargo-fuzz, debug assertions on)", "target": target, "runs_per_job": int(runs), "jobs": int(jobs), "jobs_completed": int(done), "executions": int(done) * int(runs), "edges_covered": int(cov), "corpus_files_after": int(corpus), "crash_artifacts": int(crashes), "seed": int(seed), "wall_s": int(secs)})
+f.append({"engine": "libFuzzer (cargo-fuzz, debug assertions on)", "target": target, "runs_per_job": int(runs), "jobs": int(jobs), "jobs_completed": int(done), "executions": int(done) * int(runs), "edges_covered": int(cov), "corpus_files_after": int(corpus), "crash_artifacts": int(crashes), "resource_limited_inputs_discarded": int(limited), "seed": int(seed), "wall_s": int(secs)})
 e['coverage']['evaluations'] = e['coverage'].get('evaluations', 0) + int(done) * int(runs)
 json.dump(e, open(p, 'w'), indent=1)
 PY
 rm -rf "$work"
 if [ "$crashes" -gt 0 ]; then
-  for a in "$art"*; do echo "VIOLATION property=$id replay=$a"; done
+  for a in "$art"crash-*; do echo "VIOLATION property=$id replay=$a"; done
   exit 1
 fi
 echo "fuzz $target: $done_jobs jobs x $runs runs, $cov edges, no crash" >&2
